@@ -19,6 +19,7 @@ import (
 	"github.com/bluenviron/mediamtx/internal/conf"
 	"github.com/bluenviron/mediamtx/internal/errordumper"
 	"github.com/bluenviron/mediamtx/internal/logger"
+	"github.com/bluenviron/mediamtx/internal/verifhook"
 )
 
 func mediasFromAlwaysAvailableFile(alwaysAvailableFile string) ([]*description.Media, error) {
@@ -533,6 +534,8 @@ func (s *Stream) RemoveReader(r *Reader) {
 	delete(s.readers, r)
 
 	s.mutex.Unlock()
+
+	verifhook.Point("stream.RemoveReader.beforeStop")
 
 	r.stop()
 }
